@@ -414,6 +414,24 @@ impl Net {
         }
     }
 
+    /// Cheap fingerprint: lengths, cursors and flags (not the byte contents).
+    pub fn fingerprint_light(&self) -> u64 {
+        let g = self.lock();
+        let mut h = Fnv::new();
+        for (id, s) in &g.streams {
+            h.u64(*id);
+            for p in std::iter::once(&s.fwd).chain(s.back.iter()) {
+                h.u64(p.written.len() as u64);
+                h.u64(p.delivered as u64);
+                h.u64(p.fin as u64 | (p.fin_delivered as u64) << 1 | (p.reset.is_some() as u64) << 2 | (p.stop.is_some() as u64) << 3);
+            }
+        }
+        for s in &g.sides {
+            h.u64(s.accept_bidi.len() as u64 | (s.accept_uni.len() as u64) << 8 | (s.close_calls.len() as u64) << 16 | (s.conn_err.is_some() as u64) << 24);
+        }
+        h.finish()
+    }
+
     /// Fingerprint of the complete transport state (bytes, cursors, flags, queues).
     pub fn fingerprint(&self) -> u64 {
         let g = self.lock();
